@@ -125,7 +125,14 @@ def concretize(terms, extra=None):
     return [t if isinstance(t, int) else m.eval(t, model_completion=True).as_long() for t in terms]
 
 
-def order_obligation(depth, n):
+TEMPLATES = [
+    # (spelling with redundant components; N = the symbolic file name, clean directory chain)
+    (b'/a/../N', []), (b'/a/b/../N', [b'a']), (b'/a/./N', [b'a']), (b'/a//N', [b'a']), (b'/a/b/../../N', []),
+    (b'/a/../b/N', [b'b']), (b'//a/N', [b'a']), (b'/a/b/./../c/N', [b'a', b'c']),
+]
+
+
+def order_obligation(depth, n, template=None):
     st = {}
 
     def run():
@@ -142,8 +149,20 @@ def order_obligation(depth, n):
         for d in dirs:
             path += list(d) + [47]
         path += name
-        st.update(name=name, dirs=dirs, path=path)
-        got = collect(path)
+        given = path
+        if template is not None:
+            # the caller spells the target with "..", "." or doubled separators: the candidates are those of the cleaned path
+            spelling, clean_dirs = template
+            dirs = [tuple(d) for d in clean_dirs]
+            path = [47]
+            for d in dirs:
+                path += list(d) + [47]
+            path += name
+            given = []
+            for ch in spelling:
+                given += name if ch == ord('N') else [ch]
+        st.update(name=name, dirs=dirs, path=path, given=given)
+        got = collect(given)
         want = oracle(dirs, name)
         return got, want
 
@@ -151,7 +170,7 @@ def order_obligation(depth, n):
         name = st['name']
         base_w = {'depth': depth}
         if outcome == 'panic':
-            w = concretize(st['path'])
+            w = concretize(st['given'])
             return {'role': 'possible_do_files-panics', 'what': 'possible_do_files panics: %s' % val.msg, 'witness': dict(base_w, path_hex=bytes(w).hex())}
         got, want = val
         chk.goal('order: a name with two or more dots', sum(1 for c in want if c['ext']) >= 2 * (depth + 1))
@@ -183,9 +202,10 @@ def order_obligation(depth, n):
                     f = ff
                     break
         if bad:
-            w = concretize(st['path'], f if f is not True else None)
+            w = concretize(st['given'], f if f is not True else None)
+            wc = concretize(st['path'], f if f is not True else None)
             return {'role': 'do-file-order:' + bad.split(' field ')[-1].split(' ')[0], 'kind': 'order', 'what': bad,
-                    'witness': dict(base_w, path_hex=bytes(w).hex())}
+                    'witness': dict(base_w, path_hex=bytes(w).hex(), clean_hex=bytes(wc).hex())}
         return None
 
     def sample(outcome, val, path):
@@ -199,7 +219,10 @@ def order_obligation(depth, n):
         return {'target': bytes(w).decode('latin-1'), 'candidates': ['%s/%s  $2=%s ext=%s' % (s(c['do_dir']), s(c['do_file']), s(c['base_name']), s(c['ext']))
                                                                       for c in val[0]][:8]}
 
-    chk.explore('candidate order depth=%d name_len=%d' % (depth, n), run, judge, sample, max_samples=1)
+    label = 'candidate order depth=%d name_len=%d' % (depth, n)
+    if template is not None:
+        label = 'candidate order for the spelling %s name_len=%d' % (template[0].decode(), n)
+    chk.explore(label, run, judge, sample, max_samples=1)
 
 
 # ---------------------------------------------------------------------------------------------- find_do_file edges
@@ -273,7 +296,12 @@ def find_do_file_obligation():
             if not bad and len(edges) != len(asked):
                 bad = 'extra edges recorded: %r' % (sorted(edges),)
         if bad:
-            return {'role': 'find_do_file-edges', 'kind': 'none', 'what': 'find_do_file: ' + bad, 'witness': {'shape': st['shape'].decode(), 'asked': [(a.decode(), e) for a, e in asked]}}
+            existing = [a for a, ex in asked if ex]
+            exp_edges = sorted('%s:%s' % ((a if not a.startswith(b'/') else b'../' + a[1:]).decode(), 'm' if (a, True) in asked and a == p_ else 'c')
+                               for a in exp_asked for p_ in [exp_asked[-1] if (exp_asked[-1], True) in asked else None])
+            return {'role': 'find_do_file-edges', 'kind': 'edges', 'what': 'find_do_file: ' + bad,
+                    'witness': {'shape': st['shape'].decode(), 'asked': [(a.decode(), e) for a, e in asked],
+                                'line': '%s %s' % (st['shape'].hex(), existing[0].hex() if existing else '-'), 'expect_edges': exp_edges}}
         return None
 
     chk.explore('find_do_file: first existing candidate wins, edges recorded', run, judge)
@@ -317,6 +345,14 @@ def py_oracle(path):
 
 def make_replay(rep):
     def replay(c):
+        if c.get('kind') == 'edges':
+            w = c['witness']
+            payload, raw, rc = rep.run('paths', 'find_do_file_batch', [w['line']])
+            if len(payload) != 1:
+                return False, 'native run failed: ' + raw[-400:]
+            got = sorted(x for x in payload[0].split(' ')[1:] if ':' in x)
+            c['native'] = payload[0]
+            return got != w['expect_edges'], 'compiled find_do_file records %r; the documented candidates give %r' % (got, w['expect_edges'])
         if c.get('kind') != 'order' and 'path_hex' not in c.get('witness', {}):
             return False, 'no replay for this obligation'
         p = bytes.fromhex(c['witness']['path_hex'])
@@ -326,7 +362,7 @@ def make_replay(rep):
             if nat is None:
                 return False, 'native run failed'
             res.append(nat[0])
-        want = py_oracle(p)
+        want = py_oracle(bytes.fromhex(c['witness'].get('clean_hex', c['witness']['path_hex'])))
         if c['role'] == 'possible_do_files-panics':
             return all(r == 'PANIC' for r in res), repr(res[0])[:200]
         return all(r != 'PANIC' and r != want for r in res), 'target %r: compiled code gives %d candidates, e.g. %r' % (p, len(res[0]), res[0][:3])
@@ -370,6 +406,9 @@ try:
     for depth in range(0, MAXDEPTH + 1):
         for n in range(1, MAXNAME + 1):
             order_obligation(depth, n)
+    for tpl in (TEMPLATES if chk.thorough() else TEMPLATES[:5]):
+        for n in ((1, 2, 3) if chk.thorough() else (2,)):
+            order_obligation(0, n, tpl)
     find_do_file_obligation()
     validate(rep)
     chk.finish(make_replay(rep))
